@@ -114,13 +114,34 @@ func c09Observe(s stats.Sample, geo bool, r *core.Rec, tag string) {
 		}
 		g := s.GeoMean()
 		if pos {
-			se := new(big.Rat)
+			pow2, maxLn := true, 0.0
 			for _, x := range ex {
-				_, e := math.Frexp(x)
-				se.Add(se, ref.RI(int64(e-1)))
+				if f, _ := math.Frexp(x); f != 0.5 {
+					pow2 = false
+				}
+				maxLn = math.Max(maxLn, math.Abs(math.Log(x)))
 			}
-			want := math.Exp2(ref.F(se.Quo(se, ref.RI(int64(len(ex))))))
-			if !r.Err("GeoMean", math.Abs(g-want)/want, 16*n*ref.Eps) {
+			var want float64
+			tol := 16 * n * ref.Eps
+			if pow2 {
+				se := new(big.Rat)
+				for _, x := range ex {
+					_, e := math.Frexp(x)
+					se.Add(se, ref.RI(int64(e-1)))
+				}
+				want = math.Exp2(ref.F(se.Quo(se, ref.RI(int64(len(ex))))))
+			} else {
+				// general positive data: exp(mean ln x) in 300-bit arithmetic; a float64 evaluation
+				// carries eps*|ln x| per term, so the tolerance grows with the dynamic range
+				sum := new(big.Float).SetPrec(300)
+				for _, x := range ex {
+					sum.Add(sum, ref.Log(new(big.Float).SetPrec(300).SetFloat64(x)))
+				}
+				sum.Quo(sum, new(big.Float).SetPrec(300).SetInt64(int64(len(ex))))
+				want = ref.ToF(ref.Exp(sum))
+				tol += 4 * maxLn * ref.Eps
+			}
+			if !r.Err("GeoMean", math.Abs(g-want)/want, tol) {
 				r.Fail("GeoMean", "%s: GeoMean()=%v exact %v (xs=%v weights=%v)", tag, g, want, trunc(xs), trunc(ws))
 			}
 		} else if ws == nil && !math.IsNaN(g) {
@@ -739,7 +760,28 @@ func c09Run(c *core.Ctx) {
 			}
 		}
 	}
-	r.Bound("large", "n in {50,199,200} x 5 patterns x 4 offsets, unweighted and weighted")
+	// GeoMean over a wide dynamic range (the product of the values under- or overflows
+	// although the geometric mean does not): every order of 4 values, and long runs of
+	// small / large values
+	if c.First() {
+		wide := []float64{1e-200, 3e-120, 1e150, 7e100}
+		enum.Permutations(4, func(p []int) {
+			xs := make([]float64, 4)
+			for i, k := range p {
+				xs[i] = wide[k]
+			}
+			run(xs, nil, true)
+			run(xs, []float64{1, 2, 1, 3}, true)
+		})
+		for _, scale := range []float64{1e-8, 1e-30, 1e25, 3} {
+			xs := make([]float64, 45)
+			for i := range xs {
+				xs[i] = scale * (1 + float64((i*7)%45)/64)
+			}
+			run(xs, nil, true)
+		}
+	}
+	r.Bound("large", "n in {50,199,200} x 5 patterns x 4 offsets, unweighted and weighted; GeoMean on 24 orders of a 350-decade range and 45-value runs at 4 scales")
 	// E-hist
 	depth := 4
 	if c.Thorough() {
